@@ -36,6 +36,13 @@ pub fn judge_pkg(pkg: &Package) -> Result<(u64, u32), (String, String)> {
             return Err(("written-bytes-depend-on-the-writer".into(), format!("a plain writer taking {max} bytes per call receives {} bytes, a Vec {}", pw.out.len(), out.len())));
         }
     }
+    // ... nor on whether the package is written with write() or with write_file()
+    if out.len() % 11 == 3 {
+        let on_disk = crate::util::bytes_of_write_file(pkg, out.len()).map_err(|e| ("write-file-fails".to_string(), e.to_string()))?;
+        if on_disk != out {
+            return Err(("written-bytes-depend-on-the-writer:write_file".into(), format!("write_file() leaves {} bytes in the file, write() produces {}", on_disk.len(), out.len())));
+        }
+    }
     let o = pkg.metadata.get_package_segment_offsets();
     let p = walk_package(&out).map_err(|e| ("written-bytes-do-not-walk".to_string(), e))?;
     let want = (0u64, 96u64, p.hdr.start as u64, p.payload_start as u64);
